@@ -132,3 +132,54 @@ Lemma link_names_unique :
   nodup_str (map row_name (C12_Table.plain_table ++ C12_Table.redis_table)) = true /\
   nodup_str (map kvrow_name (C12_Table.kv_plain_table ++ C12_Table.kv_table)) = true.
 Proof. split; vm_compute; reflexivity. Qed.
+
+(* --- round 2: client managers, script cache, ctx passed on by every kv method --- *)
+Lemma link_client_table : C12_Table.client_table = client_spec.
+Proof. reflexivity. Qed.
+
+Definition client_fresh (r : clientrow) : bool :=
+  match r with
+  | ClientNew _ _ key _ _ fresh fields _ _ =>
+      fresh && String.eqb key "r . Addr" &&
+      existsb (fun f => (String.eqb (fst f) "Addr" && String.eqb (snd f) "r . Addr") ||
+                        (String.eqb (fst f) "Addrs" && String.eqb (snd f) "[ ] string { r . Addr }")) fields
+  | ClientUnknown _ _ => false
+  end.
+
+Lemma link_client_fresh : forallb client_fresh C12_Table.client_table = true.
+Proof. vm_compute. reflexivity. Qed.
+
+Lemma link_getClient_calls :
+  C12_Gen.getClient_calls = ["red.NewClient"; "client.AddHook"; "return"; "clientManager.Get"; "return"; "return"] /\
+  C12_Gen.getCluster_calls = ["red.NewClusterClient"; "client.AddHook"; "return"; "clusterManager.Get"; "return"; "return"].
+Proof. split; reflexivity. Qed.
+
+Lemma link_scriptcache_table : C12_Table.scriptcache_table = scriptcache_spec.
+Proof. reflexivity. Qed.
+
+Lemma link_scriptcache_calls :
+  C12_Gen.sc_GetSha_calls = ["c.Load"; "return"] /\
+  C12_Gen.sc_SetSha_calls = ["lock.Lock"; "defer:lock.Unlock"; "c.Load"; "make"; "c.Store"].
+Proof. split; reflexivity. Qed.
+
+(* a kv context-form method hands ITS ctx to a context-form method of the wrapper (or of the store) *)
+Definition ends_ctx (s : string) : bool :=
+  let n := String.length s in String.eqb (String.substring (n - 3) 3 s) "Ctx".
+
+Definition kv_ctx_ok (rt : list row) (r : kvrow) : bool :=
+  match r with
+  | KV _ _ _ target (Ctx :: _) | KVEach _ _ _ _ target (Ctx :: _) =>
+      ends_ctx target && existsb (fun x => String.eqb (row_name x) target) rt
+  | KVDeleg _ _ target (Ctx :: _) => ends_ctx target
+  | _ => false
+  end.
+
+Lemma link_kv_ctx : forallb (kv_ctx_ok C12_Table.redis_table) C12_Table.kv_table = true.
+Proof. vm_compute. reflexivity. Qed.
+
+Lemma link_eval_rows :
+  find_row C12_Table.redis_table "EvalCtx" =
+    Some (Cmd "EvalCtx" ["string"; "[]string"; "...any"] (mkcmd true NodeGetRedis NoGuard "Eval" [P 0; P 1; PV 2] CId NilReturned)) /\
+  find_row C12_Table.redis_table "EvalShaCtx" =
+    Some (Cmd "EvalShaCtx" ["string"; "[]string"; "...any"] (mkcmd true NodeGetRedis NoGuard "EvalSha" [P 0; P 1; PV 2] CId NilReturned)).
+Proof. split; reflexivity. Qed.
